@@ -39,16 +39,24 @@ type Log struct {
 	Traces int
 }
 
-func NewLog(tracePath, boundsPath string) (*Log, error) {
-	f, err := os.Create(tracePath)
+func NewLog(tracePath, boundsPath string, appendMode bool) (*Log, error) {
+	flags := os.O_CREATE | os.O_WRONLY | os.O_TRUNC
+	lines := 0
+	if appendMode {
+		flags = os.O_CREATE | os.O_WRONLY | os.O_APPEND
+		if data, err := os.ReadFile(tracePath); err == nil {
+			lines = strings.Count(string(data), "\n")
+		}
+	}
+	f, err := os.OpenFile(tracePath, flags, 0o644)
 	if err != nil {
 		return nil, err
 	}
-	bf, err := os.Create(boundsPath)
+	bf, err := os.OpenFile(boundsPath, flags, 0o644)
 	if err != nil {
 		return nil, err
 	}
-	l := &Log{f: f, bf: bf}
+	l := &Log{f: f, bf: bf, line: lines}
 	l.w = bufio.NewWriterSize(f, 1<<20)
 	l.bw = bufio.NewWriter(bf)
 	l.enc = json.NewEncoder(l.w)
@@ -153,4 +161,14 @@ func loadScripts(path string) ([]Script, error) {
 		out = append(out, s)
 	}
 	return out, sc.Err()
+}
+
+// ExitAfterPanic is called by a driver after it logged a panic of the code under test: the
+// process state can no longer be trusted (locks may be held, finalizers armed), so the harness
+// flushes its logs and exits with a distinguished status; the orchestrator resumes with the
+// next script in a fresh process.
+func ExitAfterPanic(log *Log, nextScript int) {
+	log.Close()
+	os.WriteFile(os.Getenv("VERIF_TRACE")+".resume", []byte(fmt.Sprintf("%d", nextScript)), 0o644)
+	os.Exit(75)
 }
